@@ -27,6 +27,9 @@ Count == {"0", "1", "2", "17", "300"}
 Presence == {"absent", "present"}
 PathShape == {"empty", "wallet", "wallet-slash", "slash", "slash-acct", "badregex", "unclosed-group", "long", "unknown", "dotstar", "unicode", "two-slashes"}
 Str == {"empty", "wallet-only", "valid", "unknown", "no-wallet", "badregex", "long", "unicode", "exists"}
+\* content classes of a passphrase (the length class is a separate field): random bytes, all zero, all 0xff, printable, and text
+\* mixing invalid UTF-8 with combining marks (passphrases are Unicode-normalised by the keystore encryptor)
+Fill == {"random", "zeros", "ones", "ascii", "combining"}
 DomainT == {"absent", "empty", "len1", "len3", "att", "prop", "exit", "randao", "att-len31", "att-len33", "len1000"}
 
 Fields == [
@@ -38,11 +41,11 @@ Fields == [
                      target |-> Presence, sroot |-> Roots, mix |-> {"same", "alternate-empty", "same-account"}],
   Proposal      |-> [id |-> Id, domain |-> DomainT, data |-> Presence, slot |-> U64, proposer |-> U64, parent |-> Roots, state |-> Roots, body |-> Roots],
   List          |-> [count |-> Count, path |-> PathShape, mix |-> {"same", "distinct"}],
-  Generate      |-> [account |-> Str, passphrase |-> Bytes, participants |-> U32, threshold |-> U32],
+  Generate      |-> [account |-> Str, passphrase |-> Bytes, fill |-> Fill, participants |-> U32, threshold |-> U32],
   LockAccount   |-> [account |-> Str],
-  UnlockAccount |-> [account |-> Str, passphrase |-> Bytes],
+  UnlockAccount |-> [account |-> Str, passphrase |-> Bytes, fill |-> Fill],
   LockWallet    |-> [wallet |-> Str],
-  UnlockWallet  |-> [wallet |-> Str, passphrase |-> Bytes],
+  UnlockWallet  |-> [wallet |-> Str, passphrase |-> Bytes, fill |-> Fill],
   DkgPrepare    |-> [caller |-> {"client", "unknown"}, account |-> Str, threshold |-> U32, nparticipants |-> Count],
   DkgExecute    |-> [caller |-> {"client", "unknown"}, account |-> Str],
   DkgCommit     |-> [caller |-> {"client", "unknown"}, account |-> Str, confirmation |-> Bytes],
